@@ -76,9 +76,9 @@ Proof.
       apply IH. unfold rel. repeat split; try assumption. congruence.
 Qed.
 
-Theorem model_ok i : prop_ok (i, model_outs i) = true.
+Theorem model_ok i : i_incl i = false -> prop_ok (i, model_outs i) = true.
 Proof.
-  unfold prop_ok, model_outs. cbn [fst snd]. apply trun_spec.
+  intros Hincl. unfold prop_ok, model_outs. cbn [fst snd]. rewrite Hincl. apply trun_spec.
   unfold rel, tinit; cbn [pipe_ nadds bcap trs cursor pinit qsz cq tss map].
   repeat split; try (symmetry; apply lastn_opt_nil).
   intros Hne. symmetry. apply Nat.mod_0_l. destruct (map _ (i_conds i)); [congruence|discriminate].
